@@ -368,6 +368,7 @@ def next_column_units(run):
     verdict = {"scan": None, "attach": None}
     why = {}
     nz_ok = True
+    stab_ok, stab_seen = True, False
     for path, r in results:
         if "raised" in r:
             if "ZeroDivisionError" in r["raised"]:
@@ -388,6 +389,16 @@ def next_column_units(run):
         rs = ret.f.get("rescale")
         if rs is None or smt.prove(list(path.pc) + [u.resc(J) != 0], I.to_real(rs) != 0)["verdict"] != "proved":
             nz_ok = False
+        # stabilisation: the coefficient keeps (stored value of the start item) * rescale constant from column to column,
+        #   next.rescale * den = num * prev.rescale      (num/den = stored start item of the previous / new column),
+        # so stored values stay of the order of the conditional probability however small the prefix weight gets
+        if rs is not None:
+            num_, den_ = z3.Real("num"), z3.Real("den")
+            both = smt.prove(list(path.pc), z3.And(num_ != 0, den_ != 0))["verdict"] == "proved"
+            if both:
+                stab_seen = True
+                if smt.prove(list(path.pc), I.to_real(rs) * den_ == num_ * u.resc(J))["verdict"] != "proved":
+                    stab_ok = False
         for up in r["updates"]:
             ph = up["phase"]
             if up["col"] is not ret:
@@ -425,6 +436,14 @@ def next_column_units(run):
         else:
             run.obligation(names[key], "refuted", detail=why.get(ph, "unit mismatch"), replay=dict(replayed=False, why=why.get(ph)),
                            signature="next_column:" + key)
+    n_stab = "C04/earley_rescaled.Earley.next_column/rescale-stabilises"
+    if stab_ok and stab_seen:
+        run.obligation(n_stab, "proved", backend="pyvc+z3", detail="next.rescale * (new start item) = (previous start item) * prev.rescale whenever both are non-zero: "
+                       "stored values do not decay with the prefix weight (the purpose of rescaling: long, improbable contexts)")
+    else:
+        run.obligation(n_stab, "refuted" if stab_seen else "out-of-subset", detail="the new coefficient does not carry the previous one: stored values decay with the prefix "
+                       "weight and underflow on long, improbable contexts", replay=dict(replayed=False, hint="0.001: S -> a S | 0.999: S -> a on a^250 with the rescaled EarleyLM"),
+                       signature="next_column:rescale-stabilises")
     if nz_ok:
         run.obligation(names["rescale-nonzero"], "proved", backend="pyvc+z3", detail="next_col.rescale is 1 or num / den * prev.rescale with num, den != 0: never zero")
     else:
